@@ -874,7 +874,8 @@ def _scenario_nontrivial(trace):
 def _pm_shard(args):
     """Replay a batch of scenarios / random walks on real managers, validate the traces by TLC."""
     scen, seed, nrandom, maxlen = args
-    items = [(np, hist, "scenario") for np, hist in scen]
+    scen = [json.loads(_unq(x)) if isinstance(x, str) else x for x in scen]
+    items = [(d["np"], d["hist"], "scenario") for d in scen]
     rng = random.Random(seed)
     for _ in range(nrandom):
         items.append((rng.choice([1, 2, 2, 3]), random_pm_walk(rng, rng.randint(3, maxlen)), "random"))
@@ -1174,7 +1175,7 @@ class _PartA:
         for m in (0, 1, 2, 3):
             for i in range(nsh):
                 jobs.append(("all", m, total * i // nsh, total * (i + 1) // nsh, L, 0))
-        nr, per = (4, 400) if quick else (16, 3000)
+        nr, per = (4, 250) if quick else (16, 3000)
         for i in range(nr):
             jobs.append(("rand", 0, 0, per, 8 if i % 2 == 0 else 30, rep.seed * 1000 + i))
         self.tr = pool.map_async(_seq_shard, jobs)
@@ -1232,7 +1233,7 @@ class _PartB:
         rep.extra["conc_programs_emitted"] = len(progs)
         rep.extra["conc_outcomes_emitted"] = sum(len(v) for v in progs.values())
         keys = sorted(progs)
-        sel = rng.sample(keys, min(144 if quick else 1200, len(keys)))
+        sel = rng.sample(keys, min(112 if quick else 1200, len(keys)))
         jobs = [([(k, progs[k]) for k in ch], 2, 170 if quick else 1500, 2 if quick else 10, rep.seed, False)
                 for ch in _chunks(sel, NPROC * (1 if quick else 3))]
         rnd = random_container_programs(rng, 32 if quick else 320)
@@ -1296,19 +1297,17 @@ class _PartC:
 
     def submit2(self, pool, rep, quick, rng):
         self.cem = self.emit.get()
-        scen = []
-        for o in self.cem:
-            for x in o["scen"]:
-                d = json.loads(_unq(x))
-                scen.append((d["np"], d["hist"]))
+        scen = [x for o in self.cem for x in o["scen"]]          # raw JSON text; decoded in the workers
         if not scen:
             raise tlc.MachineryError("PoolCache emitted no scenario")
         rep.extra["pm_scenarios_emitted"] = len(scen)
-        ops_seen = {x["op"] for _, h in scen for x in h}
+        ops_seen = set()
+        for x in scen[:20000]:
+            ops_seen.update(y["op"] for y in json.loads(_unq(x))["hist"])
         if not {"req", "goc", "hsend", "fin", "dropr", "droph", "clear", "gc"} <= ops_seen:
             raise tlc.MachineryError(f"PoolCache scenarios miss an operation kind: {sorted(ops_seen)}")
-        if quick and len(scen) > 3200:
-            scen = rng.sample(scen, 3200)
+        if quick and len(scen) > 2400:
+            scen = rng.sample(scen, 2400)
         rep.extra["pm_scenarios_replayed"] = len(scen)
         nrw = 30 if quick else 200
         jobs = [(ch, rep.seed * 100 + i, nrw, 14 if quick else 24)
